@@ -751,7 +751,7 @@ def run_round5(chk, rng, judge, mult, emit):
         else:
             ofs = [np.asarray(f, dtype=float) for f in out[1]]
             oc = np.asarray(out[0], dtype=float)
-            if all(f.ndim == 2 for f in ofs) and np.all(np.isfinite(oc)) and small([oc.shape, out.shape, out.rank]):
+            if all(f.ndim == 2 for f in ofs) and np.all(np.isfinite(oc)) and all(np.all(np.isfinite(f)) for f in ofs) and small([oc.shape, out.shape, out.rank]):
                 lit = f"(Ok ({C.nat_list([int(d) for d in out.shape])}, {C.nat_list([int(d) for d in out.rank])}, ({qtens(oc)}, {qmats(ofs)})))"
             else:
                 lit = "(Ok ([99999]%nat, [99999]%nat, (mk [99999]%nat (@nil Q), (@nil (list (list Q))))))"
